@@ -92,7 +92,9 @@ class C16(Prop):
         "saveObject_writes_each_nonstatic_variable_its_own_value", "saveLines_spec", "saveLines_sub", "findGlobal_flat",
         "cns_flat", "restoreObjectT_flat", "object_roundtrip", "object_roundtrip_noclear", "size_overheads_suffice",
         "saveEscaped_sub_sizeEscaped", "restore_swap_inverts_save", "restore_swap_sites_agree",
-        "save_escapes_quote_backslash_cr", "tmpName_ne_file", "save_failure_leaves_no_tmp", "save_success_leaves_no_tmp")]
+        "save_escapes_quote_backslash_cr", "tmpName_ne_file", "save_failure_leaves_no_tmp", "save_success_leaves_no_tmp",
+        "restore_nesting_bounded", "nesting_test_only_refuses", "saveObject_leaves_no_tmp", "saveObject_error_touches_nothing",
+        "saveObject_error_iff_too_deep", "tmpName_eq", "tmpName_never_a_save_file")]
     witness_theorems = ["NV.C16.Witness." + t for t in (
         "float_keys_collapse", "roundtripFloatKeys_Full_false", "cr_round_trips", "stray_byte_in_array_ok",
         "inf_is_written_as_number", "same_name_saved", "same_name_variables")]
@@ -452,6 +454,41 @@ class C16(Prop):
                 return self.gen_progs(rng, allow_dups)
         return progs, top
 
+    # allocate_mapping(n) gives restore_mapping a table of 8 buckets for n <= 8 pairs, else the next power of two above
+    # n; growMap() doubles it in the middle of the restore when 80% of the buckets are in use: sizes at which that can
+    # happen (and their neighbours)
+    GROW_SIZES = [5, 6, 7, 8, 9, 11, 12, 13, 14, 15, 16, 17, 24, 25, 26, 27, 28, 29, 30, 31, 32, 33, 50, 52, 55, 60, 63, 64]
+
+    def grow_mapping(self, rng, n=None, keys=None):
+        """a mapping whose pairs, restored in this order, fill many different buckets: integer keys are multiples of 16
+        (MAP_POINTER_HASH drops the low four bits) spread over several table sizes, or strings (hashed by address)"""
+        n = n or rng.choice(self.GROW_SIZES)
+        kind = keys or rng.weighted([("int", 5), ("str", 2), ("mixed", 2), ("negint", 1)])
+        ks, seen = [], set()
+        while len(ks) < n:
+            if kind == "str" or (kind == "mixed" and rng.chance(1, 2)):
+                k = ("s", [0x6b] + [rng.range(0x61, 0x7a) for _ in range(rng.range(1, 4))])
+            else:
+                j = rng.below(8 * n + 8)
+                if kind == "negint" and rng.chance(1, 2):
+                    j = -j - 1
+                k = ("i", 16 * j + (rng.below(16) if rng.chance(1, 4) else 0))
+            if vtxt(k) in seen:
+                continue
+            seen.add(vtxt(k))
+            ks.append(k)
+        return ("m", [(k, ("i", i + 1)) for i, k in enumerate(ks)])
+
+    def grow_lines(self, rng, n=None, keys=None):
+        v = self.grow_mapping(rng, n, keys)
+        lines = ["rx %s %s" % (vtxt(v), save_text(v).hex())]
+        if rng.chance(1, 3):
+            w = ("a", [v, ("m", [(("s", [0x61]), self.grow_mapping(rng, None, keys))])])
+            lines.append("rx %s %s" % (vtxt(w), save_text(w).hex()))
+        if rng.chance(1, 3):
+            lines.append("rt " + vtxt(v))
+        return lines
+
     def rx_ok(self, v):
         """values whose python-made save text is unambiguous: no floats (text made by python's %g)"""
         t = v[0]
@@ -579,6 +616,20 @@ class C16(Prop):
              '({"\r\n",})', '({"\xe4\xb8\xad",})', '({"\xe4\xb8",})', '({"\xff",})', '({"a\\\xe4\xb8\xad",})',
              '({\xe4\xb8\xad,})', "({\xff,})"]
         mk("restore-texts", ["rv " + t.encode("latin1").hex() for t in R])
+        # growMap() in the middle of restore_mapping: the pair that triggers the growth must land in the bucket of the
+        # DOUBLED table (hash bit `old size` set / not set), every pair must be found through its key afterwards
+        G = ["([16:1,32:2,48:3,64:4,80:5,224:6,])", "([16:1,32:2,48:3,64:4,80:5,96:6,])", "([0:1,16:2,32:3,48:4,64:5,208:6,224:7,240:8,])",
+             "([128:1,144:2,160:3,176:4,192:5,208:6,224:7,])", "([-16:1,-32:2,-48:3,-64:4,-80:5,-224:6,-240:7,])",
+             "([" + "".join("%d:%d," % (16 * (3 * i % 32), i) for i in range(15)) + "])",
+             "([" + "".join("%d:%d," % (16 * (31 - i), i) for i in range(14)) + "])",
+             "([" + "".join("%d:%d," % (16 * (5 * i % 128), i) for i in range(31)) + "])",
+             "([" + "".join("%d:%d," % (16 * (127 - 3 * i), i) for i in range(27)) + "])",
+             "([" + "".join('"k%c%c":%d,' % (97 + i % 26, 97 + i // 26, i) for i in range(31)) + "])",
+             '(["a":([16:1,32:2,48:3,64:4,80:5,224:6,]),"b":({([16:1,32:2,48:3,64:4,80:5,240:6,7:7,]),}),])']
+        mk("mapping-grows-during-restore", ["rv " + t.encode().hex() for t in G] +
+           sum([self.grow_lines(E.Rng(100 + n), n, k) for n in (6, 7, 8, 12, 13, 14, 15, 25, 28, 31, 63) for k in ("int", "str")], []) +
+           ["set i1 i2 i3 i4 i5", "wf " + ("#/c16/obj.c\nva " + G[0] + "\nvb " + G[5] + "\nvc " + G[7] + "\n").encode().hex(), "ro 0", "ro 1",
+            "so 1", "ro 0"])
         mk("restore-after-error", ["rv " + ("({({1,2,3,}),({" + "1," * 20000 + "}),})").encode().hex(),
                                    "rx a[i1,i2] " + b"({1,2,})".hex(), "rx c(i1,i2) " + b"(/1,2,/)".hex(),
                                    "rx m{i1:i2} " + b"([1:2,])".hex(), "rt a[i1,i2]"])
@@ -681,8 +732,16 @@ class C16(Prop):
 
     def gen_case(self, rng, cid, tier):
         kind = rng.weighted([("rt", 8), ("malformed", 8), ("trunc-all", 1), ("object", 3), ("crash", 1), ("renamed", 2),
-                             ("many", 1), ("names", 1), ("tree", 5)])
+                             ("many", 1), ("names", 1), ("tree", 5), ("mapgrow", 3)])
         lines = ["rm"]
+        if kind == "mapgrow":
+            for _ in range(rng.range(2, 5)):
+                lines += self.grow_lines(rng)
+            if rng.chance(1, 3):
+                v, w = self.grow_mapping(rng), self.grow_mapping(rng)
+                lines += ["set i1 i2 i3 i4 i5", "wf " + (b"#/c16/obj.c\nva " + save_text(v) + b"\nvc " + save_text(w) + b"\n").hex(),
+                          "ro %d" % rng.below(2)]
+            return E.Case(cid, lines, {"origin": "generated", "kind": kind})
         if kind == "tree":
             progs, top = self.gen_progs(rng, allow_dups=rng.chance(1, 8))
             steps = rng.weighted([(("so", "ro"), 5), (("so", "ro", "so", "ro"), 3), (("so", "ro", "cp"), 1), (("so", "cp"), 1)])
